@@ -121,8 +121,8 @@ Proof.
   reflexivity.
 Qed.
 
-Theorem null_model_inv und n W isint close bs wf pf ints ords perms r : (0 < n)%nat -> pre und n W ->
-  null_model und n W isint close bs wf pf ints ords perms = Returned r ->
+Theorem null_model_inv und n W close bs wf pf ints ords perms r : (0 < n)%nat -> pre und n W ->
+  null_model und n W close bs wf pf ints ords perms = Returned r ->
   (* degrees (every sign class, rows and columns), multiset of entries, symmetry *)
   sinv und n (clear_diag W) (nm_W0 r) /\
   (* empty diagonal *)
@@ -145,7 +145,7 @@ Proof.
   { intros Hu. specialize (HpreW Hu).
     intros i j Hi Hj. unfold Wc. rewrite !tab_spec by assumption. unfold clear_diag.
     rewrite (Nat.eqb_sym j i). destruct (Nat.eqb i j); [reflexivity|apply HpreW; assumption]. }
-  destruct ((length (supp false n 1 Wc) <? n * (n - 1))%nat && runs_out und n (n_iter und n bs) Wc ints)%bool;
+  destruct ((length (supp false n 1 Wc) <? n * (n - 1))%nat && randmio_runs_out und n Wc bs ints)%bool;
     [discriminate|].
   set (X := if (length (supp false n 1 Wc) <? n * (n - 1))%nat
             then randmio_signed und n Wc bs ints else (Wc, ints, [])) in H.
@@ -156,7 +156,6 @@ Proof.
     - cbn [fst snd]. split; [apply sinv_refl; exact Hpre|constructor]. }
   destruct X as [[Wr rest] tr]. cbn [fst snd] in HX. destruct HX as [HinvR HinvT].
   destruct (period_or wf pf) as [per|]; [|discriminate].
-  destruct (isint && negb (Nat.eqb per 0) && has_weight und n Wc)%bool; [discriminate|].
   destruct (deal_sign und n per 1 Wc Wr zero_mat ords perms) as [[[W1 o1] p1]|] eqn:E1; [|discriminate].
   destruct (deal_sign und n per (-1) Wc Wr W1 o1 p1) as [[[W2 o2] p2]|] eqn:E2; [|discriminate].
   injection H as <-. cbn [nm_W0 nm_corr nm_Wr nm_trace].
@@ -202,10 +201,10 @@ Definition null_model_property (und : bool) (n : nat) (W : mat Z) (r : nm_result
       corr3 (str_in npart Wc n) (str_in npart (nm_W0 r) n) n;
       corr3 (str_out npart Wc n) (str_out npart (nm_W0 r) n) n ].
 
-Theorem null_model_meets_property und n W isint close bs wf pf ints ords perms r : (0 < n)%nat -> pre und n W ->
-  null_model und n W isint close bs wf pf ints ords perms = Returned r -> null_model_property und n W r.
+Theorem null_model_meets_property und n W close bs wf pf ints ords perms r : (0 < n)%nat -> pre und n W ->
+  null_model und n W close bs wf pf ints ords perms = Returned r -> null_model_property und n W r.
 Proof.
-  intros Hn Hp H. destruct (null_model_inv und n W isint close bs wf pf ints ords perms r Hn Hp H) as (A & B & C & _ & _ & F).
+  intros Hn Hp H. destruct (null_model_inv und n W close bs wf pf ints ords perms r Hn Hp H) as (A & B & C & _ & _ & F).
   destruct (sinv_explicit und n _ _ A) as (A1 & A2 & _ & A4).
   unfold null_model_property. cbv zeta.
   split; [exact A1|]. split; [exact A2|]. split; [exact B|]. split; [exact A4|]. split; [exact C|].
@@ -213,25 +212,25 @@ Proof.
 Qed.
 
 (* the rewiring inside the null model: final and every intermediate state *)
-Theorem null_model_rewiring_inv und n W isint close bs wf pf ints ords perms r : (0 < n)%nat -> pre und n W ->
-  null_model und n W isint close bs wf pf ints ords perms = Returned r ->
+Theorem null_model_rewiring_inv und n W close bs wf pf ints ords perms r : (0 < n)%nat -> pre und n W ->
+  null_model und n W close bs wf pf ints ords perms = Returned r ->
   let ok := fun M => same_signed_degrees n (clear_diag W) M /\ same_entries n (clear_diag W) M /\
                      same_diag n (clear_diag W) M /\ (und = true -> symn n M) in
   ok (nm_Wr r) /\ Forall (fun e => ok (snd e)) (nm_trace r).
 Proof.
-  intros Hn Hp H ok. destruct (null_model_inv und n W isint close bs wf pf ints ords perms r Hn Hp H) as (_ & _ & _ & D & E & _).
+  intros Hn Hp H ok. destruct (null_model_inv und n W close bs wf pf ints ords perms r Hn Hp H) as (_ & _ & _ & D & E & _).
   split; [exact (sinv_explicit und n _ _ D)|].
   eapply Forall_impl; [|exact E]. intros e He. exact (sinv_explicit und n _ _ He).
 Qed.
 
 (* asymmetric input to the undirected routine is rejected *)
 (* asymmetric input to the undirected routine is rejected: exactly when np.allclose says "not close" *)
-Lemma null_model_und_rejects n W isint bs wf pf ints ords perms :
-  symb n W = false -> null_model true n W isint false bs wf pf ints ords perms = ParamError.
+Lemma null_model_und_rejects n W bs wf pf ints ords perms :
+  symb n W = false -> null_model true n W false bs wf pf ints ords perms = ParamError.
 Proof. intros H. unfold null_model. rewrite H. reflexivity. Qed.
 
-Lemma null_model_param_error_iff und n W isint close bs wf pf ints ords perms :
-  null_model und n W isint close bs wf pf ints ords perms = ParamError <->
+Lemma null_model_param_error_iff und n W close bs wf pf ints ords perms :
+  null_model und n W close bs wf pf ints ords perms = ParamError <->
   (und = true /\ symb n W = false /\ close = false).
 Proof.
   unfold null_model. set (Wc := tab 0 n n (clear_diag W)).
@@ -239,11 +238,10 @@ Proof.
     try (split; [intros _; auto|reflexivity]).
   all: split; [|intros (A & B & C); discriminate].
   all: cbv zeta.
-  all: destruct ((length (supp false n 1 Wc) <? n * (n - 1))%nat && runs_out _ n _ Wc ints)%bool; [discriminate|].
+  all: destruct ((length (supp false n 1 Wc) <? n * (n - 1))%nat && randmio_runs_out _ n Wc bs ints)%bool; [discriminate|].
   all: destruct (if (length (supp false n 1 Wc) <? n * (n - 1))%nat
                  then randmio_signed _ n Wc bs ints else (Wc, ints, [])) as [[Wr rest] tr].
   all: destruct (period_or wf pf) as [per|]; [|discriminate].
-  all: destruct (isint && negb (Nat.eqb per 0) && has_weight _ n Wc)%bool; [discriminate|].
   all: destruct (deal_sign _ n per 1 _ Wr zero_mat ords perms) as [[[W1 o1] p1]|]; [|discriminate].
   all: destruct (deal_sign _ n per (-1) _ Wr W1 o1 p1) as [[[W2 o2] p2]|]; discriminate.
 Qed.
